@@ -53,3 +53,64 @@ Example C12_example :
   fac_encode (codec_of 1) 20 11 0 [x68;x65;x6c;x6c;x6f] = fac_encode (codec_of 3) 20 11 0 [x68;x65;x6c;x6c;x6f] /\
   fac_encode (codec_of 4) 20 11 0 [x68;x65;x6c;x6c;x6f] <> fac_encode (codec_of 3) 20 11 0 [x68;x65;x6c;x6c;x6f].
 Proof. split; [reflexivity|vm_compute; discriminate]. Qed.
+
+(* ------------------------------------------------------------------ *)
+(* Tool level (Proofs/GenDet.v): the ecc file is preamble ++ body, and the body is a function of the set of
+   (relative path parts, content) pairs and of the parameters only.  The generation loop is modelled as the sorted walk
+   of Walk.v (recwalk, tied to the code by the C07 and C12 correspondence streams: adversarial listing order, @mirror
+   tree, relocation, touched mtimes), the size / extension filter, and Stream.generate (C03/C08's entry format).
+   Root location and timestamps are not inputs of the model at all; listing order is, and is proved irrelevant. *)
+From PFF Require Walk Proofs.WalkP Stream Proofs.GenDet.
+
+Theorem C12_body_deterministic :
+  forall (nltb : list byte -> list byte -> bool), WalkP.strict_total nltb ->
+  forall marker delim enc track keep (t1 t2 : @Walk.tree (list byte) (list byte)),
+  Walk.wf t1 -> Walk.wf t2 ->
+  (forall d n a, Walk.file_at d n a t1 <-> Walk.file_at d n a t2) ->          (* the same files at the same relative paths *)
+  forall pre1 pre2,
+    skipn (length pre1) (GenDet.ecc_file nltb marker delim enc track keep pre1 t1) =
+    skipn (length pre2) (GenDet.ecc_file nltb marker delim enc track keep pre2 t2) /\
+    (pre1 = pre2 -> GenDet.ecc_file nltb marker delim enc track keep pre1 t1 =
+                    GenDet.ecc_file nltb marker delim enc track keep pre2 t2).
+Proof.
+  intros nltb NST marker delim enc track keep t1 t2.
+  exact (GenDet.body_deterministic nltb NST marker delim enc track keep t1 t2).
+Qed.
+Print Assumptions C12_body_deterministic.
+
+(* any re-listing of the same directories (files and sub-directories permuted at every level) *)
+Theorem C12_listing_order_irrelevant :
+  forall (nltb : list byte -> list byte -> bool), WalkP.strict_total nltb ->
+  forall marker delim enc track keep (t1 t2 : @Walk.tree (list byte) (list byte)),
+  Walk.wf t1 -> GenDet.relisted t1 t2 ->
+  forall pre1 pre2,
+    skipn (length pre1) (GenDet.ecc_file nltb marker delim enc track keep pre1 t1) =
+    skipn (length pre2) (GenDet.ecc_file nltb marker delim enc track keep pre2 t2).
+Proof.
+  intros nltb NST marker delim enc track keep t1 t2.
+  exact (GenDet.relisted_same_ecc nltb NST marker delim enc track keep t1 t2).
+Qed.
+Print Assumptions C12_listing_order_irrelevant.
+
+(* Non-vacuity: a concrete tree (names as byte strings under Python's order = Merge.bname_ltb, a strict total order by SyncP.bname_ltb_strict_total), a re-listing of it with
+   the files and sub-directory entries in another order; hypotheses met, and the walked list is the sorted one. *)
+From PFF Require Merge Proofs.SyncP.
+Definition ex_t1 : @Walk.tree (list byte) (list byte) :=
+  Walk.Dir [([x62], [x01]); ([x61], [x02; x03])] [([x64], Walk.Dir [([x79], []); ([x78], [x04])] [])].
+Definition ex_t2 : @Walk.tree (list byte) (list byte) :=
+  Walk.Dir [([x61], [x02; x03]); ([x62], [x01])] [([x64], Walk.Dir [([x78], [x04]); ([x79], [])] [])].
+Example C12_relisting_example :
+  Walk.wf ex_t1 /\ GenDet.relisted ex_t1 ex_t2 /\
+  GenDet.protected Merge.bname_ltb (fun _ => true) ex_t1 =
+    [([x61], [x02; x03]); ([x62], [x01]); ([x64; x2f; x78], [x04]); ([x64; x2f; x79], [])] /\
+  GenDet.protected Merge.bname_ltb (fun _ => true) ex_t2 = GenDet.protected Merge.bname_ltb (fun _ => true) ex_t1.
+Proof.
+  split; [|split; [|split; [vm_compute; reflexivity|vm_compute; reflexivity]]].
+  - cbn. repeat split; repeat constructor; cbn; intuition discriminate.
+  - unfold ex_t1, ex_t2.
+    apply (GenDet.relist _ _ _ [([x64], Walk.Dir [([x78], [x04]); ([x79], [])] [])]).
+    + apply Permutation.perm_swap.
+    + constructor; [|constructor]. split; [reflexivity|]. cbn [snd].
+      apply (GenDet.relist _ _ _ []); [apply Permutation.perm_swap|constructor|apply Permutation.perm_nil].
+    + apply Permutation.Permutation_refl.
+Qed.
